@@ -25,6 +25,12 @@ pub struct Finding {
     /// if present, *every* diff line kept in the violation must match it
     #[serde(default)]
     pub all_lines_regex: Option<String>,
+    /// the same root cause shows under these properties too (same signature)
+    #[serde(default)]
+    pub also_properties: Vec<String>,
+    /// oracles of the other properties under which it shows (`oracle` is always accepted)
+    #[serde(default)]
+    pub also_oracles: Vec<String>,
 }
 
 #[derive(Serialize, Deserialize, Clone, Debug, Default)]
@@ -65,7 +71,10 @@ impl Findings {
 
     pub fn matches(&self, prop: &str, v: &Violation, minimised: bool) -> Option<&Finding> {
         for (f, re, all) in &self.list {
-            if f.property != prop || f.oracle != v.oracle {
+            if f.property != prop && !f.also_properties.iter().any(|p| p == prop) {
+                continue;
+            }
+            if f.oracle != v.oracle && !f.also_oracles.iter().any(|o| o == &v.oracle) {
                 continue;
             }
             if !f.requires_tags.is_empty() && !minimised {
